@@ -275,6 +275,13 @@ func (t *c11Tree) scenarios(tier string) []*Scen {
 		add(&Scen{Name: "fake-stale-stats-last", Kind: "fake", Shape: fmt.Sprintf("genesis/N=%d+stale-stats", nMain), FakeChain: seq(t, nMain), Ref: seq(t, nMain),
 			FakeStale: t.idx[t.main[5]], Fault: "stale-stats", TimeoutMs: 40000})
 	}
+	if t.weightJ != 0 {
+		// a peer announces a higher and heavier chain, serves nothing and leaves; the honest peer A holds a chain that is
+		// heavier than B's but not higher (Proofs/Sync2Stuck.v, livelock 2)
+		b := append(seq(t, t.weightJ), t.ids(t.weightU)...)
+		add(&Scen{Name: "stale-target-peer-gone", Kind: "fake", Shape: fmt.Sprintf("weight/hA=%d/hB=%d+announce-and-leave", t.weightA, t.weightJ+3),
+			A: seq(t, t.weightA), B: b, Ref: seq(t, t.weightA), FakeChain: seq(t, nMain), Fault: "gone", Param: 300, TimeoutMs: 30000})
+	}
 	inv := map[string]string{}
 	names := []string{"bad-pow", "diff+1", "bad-sig-tx"}
 	for i, nm := range names {
